@@ -37,6 +37,33 @@ Definition spec_entry (lp : list upl) (a w : Z) (i : Z) : N :=
   | _ => Z.to_N (1 + sumZ (map (fun x => let '(wa, wb) := u_win x in u_total x / u_span x * ov wa wb lo hi) touching))
   end.
 
+(* the bound for counts that are not a multiple of the span (C13_share_bound / C13_counter_bound): entry i is
+   assembled from the counters of the sub-buckets one level below the bucket size (the 10 s nodes themselves for
+   10 s buckets); each upload adds to each sub-bucket it meets its binary64 share, which is within 1 of
+   floor(total * slots_inside / span).  So the entry is 0 when nothing touches the bucket and otherwise lies in
+   1 + sum (floor - 1) .. 1 + sum (floor + 1) over (upload, sub-bucket) pairs that meet. *)
+Definition piece_bounds (lp : list upl) (lo sw : Z) (q : Z) : Z * Z * bool :=
+  let slo := lo + q * sw in
+  fold_left (fun acc x =>
+               let '(l, h, tch) := acc in
+               let '(wa, wb) := u_win x in
+               let o := ov wa wb slo (slo + sw) in
+               if 0 <? o then (l + (u_total x * o / u_span x - 1), h + (u_total x * o / u_span x + 1), true) else acc)
+            lp (0, 0, false).
+Definition bound_entry_ok (lp : list upl) (a w : Z) (dl : nat) (i : Z) (e : N) : bool :=
+  let lo := a + i * w in
+  let sw := pow10 (Nat.pred dl) in
+  let nsub := Z.to_nat (w / sw) in
+  let '(l, h, tch) := fold_left (fun acc q => let '(l, h, t) := acc in
+                                              let '(l', h', t') := piece_bounds lp lo sw q in (l + l', h + h', t || t'))
+                                (range_list 0 nsub) (0, 0, false) in
+  if tch then (1 + l <=? Z.of_N e) && (Z.of_N e <=? 1 + h) else (e =? 0)%N.
+Fixpoint bound_entries_ok (lp : list upl) (a w : Z) (dl : nat) (i : Z) (es : list N) : bool :=
+  match es with
+  | [] => true
+  | e :: es' => bound_entry_ok lp a w dl i e && bound_entries_ok lp a w dl (i + 1) es'
+  end.
+
 Definition spec_get (rev_prefix : list hop) (sel : sid) (f u : Z) (obs : option get_obs) : verdict :=
   match obs with
   | None => Ok                     (* no matching data: the handler builds an empty answer itself *)
@@ -53,8 +80,11 @@ Definition spec_get (rev_prefix : list hop) (sel : sid) (f u : Z) (obs : option 
         if has_retention rev_prefix then Ok else
         let lp := live_puts sel rev_prefix [] in
         if negb (a mod w =? 0) then Ok                                     (* start must lie on the bucket grid *)
-        else if existsb (fun x => (9 <? u_span x) || negb (u_total x mod u_span x =? 0)
-                                  || (2 ^ 53 <=? u_total x)) lp then Ok   (* uploads < 100 s, even counts, < 2^53 *)
+        else if existsb (fun x => (9 <? u_span x) || (2 ^ 52 <=? u_total x)) lp then Ok   (* uploads < 100 s, < 2^52 *)
+        else if existsb (fun x => negb (u_total x mod u_span x =? 0)) lp
+        then (* some count is not a multiple of its span: the rounding bound *)
+          spec (bound_entries_ok lp a w lvl 0 (g_tl_samples o))
+               "a timeline entry is outside the binary64 rounding bound around the samples ingested in its bucket"%string
         else spec (list_eqb N.eqb (g_tl_samples o) (map (spec_entry lp a w) (range_list 0 n)))
                   "a timeline entry is not 0 / 1 + samples ingested in its bucket"%string
       ]
